@@ -26,7 +26,40 @@ EXTRA = [
     ("Union[None,str] null-looking", typing.Union[None, str], ["null", "None", None]),
     ("timedelta large", datetime.timedelta, [datetime.timedelta(days=300000, microseconds=1), datetime.timedelta.max]),
     ("list[tuple[int,int]]", list[tuple[int, int]], [[(1, 2), (3, 4)]]),
+    ("Literal of strings that name classes", typing.Literal["int", "str", "bytes", "list", "type"], ["int", "str", "bytes", "list", "type"]),
+    ("list[Literal['SE','A']] (member names a class of this module)", list[typing.Literal["SE", "A"]], [["SE", "A"]]),
+    ("list[int] empty", list[int], [[]]),
+    ("list[list[int]] with empty members", list[list[int]], [[[], [], [2]]]),
+    ("dict[str,list[int]] with empty members", dict[str, list[int]], [{}, {"a": [], "b": [1]}]),
+    ("set[int] empty", set[int], [set()]),
+    ("dict[str,dict[str,int]] with empty members", dict[str, dict[str, int]], [{"a": {}}]),
 ]
+
+
+def poison(r, seen=None):
+    """What a caller may do with a result it owns: grow every mutable container inside it."""
+    import collections
+    import dataclasses
+    seen = seen if seen is not None else set()
+    if id(r) in seen:
+        return
+    seen.add(id(r))
+    if isinstance(r, (list, collections.deque)):
+        for x in list(r):
+            poison(x, seen)
+        r.append(7)
+    elif isinstance(r, set):
+        r.add(7)
+    elif isinstance(r, dict):
+        for x in list(r.values()):
+            poison(x, seen)
+        r["poison"] = 7
+    elif isinstance(r, (tuple, frozenset)):
+        for x in r:
+            poison(x, seen)
+    elif dataclasses.is_dataclass(r) and not isinstance(r, type):
+        for f in dataclasses.fields(r):
+            poison(getattr(r, f.name, None), seen)
 
 
 def union_free(T):
@@ -56,6 +89,27 @@ def search(stop_at=1):
                 msg = f"unmarshal({name}, {v!r}) raised {e!r}"
             if msg:
                 fails.append({"kind": "pass-through", "type": name, "value_index": vi, "failure": msg})
+                if stop_at and len(fails) >= stop_at:
+                    return fails, n, len(distinct)
+    # pass-through after the caller has used earlier results: a result belongs to the caller, who may grow it; the next valid
+    # value of the same type must still come back unchanged (a routine that hands out an object it keeps would fail here)
+    import copy
+    for name, T, values in tp.pool() + EXTRA:
+        if name == "int|str":
+            continue
+        for vi, v in enumerate(values):
+            try:
+                v1 = copy.deepcopy(v)
+                poison(typelib.unmarshal(T, v1))
+                v2 = copy.deepcopy(v)
+                r = typelib.unmarshal(T, v2)
+            except Exception:
+                continue            # (reported by the first stage)
+            n += 1
+            distinct.add((name, "history", vi))
+            if not tp.same(r, v):
+                fails.append({"kind": "pass-through-after-mutating-earlier-results", "type": name, "value_index": vi,
+                              "failure": f"unmarshal({name}, {v!r}) = {r!r} after the caller grew the containers of an earlier result for the same value"})
                 if stop_at and len(fails) >= stop_at:
                     return fails, n, len(distinct)
     # idempotence over the C03 input pool
